@@ -38,6 +38,14 @@ impl<AS: GuestAddressSpace> Net<AS> {
     }
 }
 
+#[cfg(feature = "verif-hooks")]
+impl<AS: GuestAddressSpace> Net<AS> {
+    /// Verification hook: wrap an arbitrary descriptor instead of opening /dev/vhost-net.
+    pub fn verif_with(fd: File, mem: AS) -> Self {
+        Net { fd, mem }
+    }
+}
+
 impl<AS: GuestAddressSpace> VhostNet for Net<AS> {
     fn set_backend(&self, queue_index: usize, fd: Option<&File>) -> Result<()> {
         let vring_file = vhost_vring_file {
